@@ -142,10 +142,10 @@ func TestCheck(t *testing.T) {
 	// first look at ctx.Done() can come after the hello was read (a watcher goroutine that is scheduled late). An
 	// implementation that registers for the context's end synchronously on entry (context.AfterFunc, for instance)
 	// never shows a single such trial; then the behavioural rules (a)-(c) are all there is to judge, and they were.
-	if r.Counter("late_watcher_trials") > 0 {
+	if r.Counter("late_watcher_trials")*20 >= r.Counter("trials_completed") { // a third of the trials on the code at hand, next to none on designs without such a watcher
 		r.Floor("late_watcher_and_context_ended_trials", 200)
 	} else {
-		r.Extra("late_watcher_schedule", "never observed: this implementation looks at ctx.Done() before it reads; the schedule-coverage floor does not apply")
+		r.Extra("late_watcher_schedule", "(almost) never observed: this implementation does not look at ctx.Done() late from a goroutine of its own; the schedule-coverage floor does not apply")
 	}
 	r.Floor("trials_completed", int64(idx/2))
 	r.Floor("trials_with_retry_after_context_end", int64(idx/5))
